@@ -261,7 +261,11 @@ class VerifyCommand(BaseManifestLoaderMixin, VerifyingOpenPGPMixin,
 
             logging.info(f'Verifying {p}...')
 
-            relpath = os.path.relpath(p, os.path.dirname(tlm))
+            # NB: the top-level Manifest was found by walking '..' links,
+            # so compare real paths (p can be a symlink to a directory)
+            relpath = os.path.relpath(
+                os.path.realpath(p),
+                os.path.realpath(os.path.dirname(tlm)))
             if relpath == '.':
                 relpath = ''
             ret &= m.assert_directory_verifies(relpath, **self.kwargs)
@@ -382,7 +386,11 @@ class UpdateCommand(BaseUpdateMixin, GematoCommand):
                               'implied by --profile')
                 return 1
 
-            relpath = os.path.relpath(p, os.path.dirname(tlm))
+            # NB: the top-level Manifest was found by walking '..' links,
+            # so compare real paths (p can be a symlink to a directory)
+            relpath = os.path.relpath(
+                os.path.realpath(p),
+                os.path.realpath(os.path.dirname(tlm)))
             if relpath == '.':
                 relpath = ''
             if self.timestamp and relpath != '':
